@@ -320,6 +320,30 @@ func checkC18(p *Prog, l *Ledger) {
 			}
 			l.Violate("C18/a-layout", key+"("+s.Desc+")", p.InstrPos(s.In), "a line number (layout information) influences behaviour: "+s.Desc+" in "+fk+" — inserting a line break changes what the program does, not only the line shown in diagnostics")
 		}
+		// a whole token (or any struct carrying a line) used as a map key makes the line part of the key's identity
+		for _, fn := range p.ModuleFuncs() {
+			instrsOf(fn, func(in ssa.Instruction) {
+				var key ssa.Value
+				switch x := in.(type) {
+				case *ssa.MapUpdate:
+					key = x.Key
+				case *ssa.Lookup:
+					if _, isMap := x.X.Type().Underlying().(*types.Map); isMap {
+						key = x.Index
+					}
+				}
+				if key == nil {
+					return
+				}
+				if st, ok := key.Type().Underlying().(*types.Struct); ok {
+					for i := 0; i < st.NumFields(); i++ {
+						if n := st.Field(i).Name(); n == "Line" || n == "LineNumber" {
+							l.Violate("C18/a-layout", p.FuncKey(fn)+"#map-key("+typeStr(key.Type())+")", p.InstrPos(in), "a map is keyed by a "+typeStr(key.Type())+" value, which contains the line number: two occurrences of a name behave as one or as two depending on whether they stand on the same line")
+						}
+					}
+				}
+			})
+		}
 		l.Extra["line_field_reads"] = len(srcs)
 		if len(srcs) < 40 {
 			l.Violate("C18/a-layout/vacuity", "line reads", "", fmt.Sprintf("only %d reads of Line/LineNumber/line fields found (about 50 expected)", len(srcs)))
@@ -501,7 +525,10 @@ func checkNodeKindTests(p *Prog, l *Ledger, rule string) {
 		if _, ok := allowed[fk]; ok {
 			return fk
 		}
-		if depth > 3 {
+		if _, existing := expectedFuncs[fk]; existing || depth > 3 {
+			// a function of the confirmed tree is nobody's helper: only functions that did not exist there (code that
+			// was split off) inherit — otherwise the allowance would run down the whole ladder, each level having
+			// exactly one caller
 			return ""
 		}
 		css := p.CallSites(fn)
@@ -521,11 +548,18 @@ func checkNodeKindTests(p *Prog, l *Ledger, rule string) {
 		}
 		return o
 	}
+	inherited := map[string]string{}
 	for _, fn := range p.ModuleFuncs() {
 		fk := p.FuncKey(fn)
 		if o := owner(fn, 0); o != "" && o != fk {
-			allowed[fk] = allowed[o] + " (in a helper of " + o + ")"
+			inherited[fk] = allowed[o] + " (in a helper of " + o + ")"
 		}
+	}
+	for k, v := range inherited {
+		allowed[k] = v
+	}
+	for _, fn := range p.ModuleFuncs() {
+		fk := p.FuncKey(fn)
 		instrsOf(fn, func(in ssa.Instruction) {
 			ta, ok := in.(*ssa.TypeAssert)
 			if !ok {
